@@ -440,7 +440,7 @@ pub fn cmd_walimg(kv: &HashMap<String, String>) -> i32 {
     let out = kv.get("out").cloned().expect("--out");
     let replay_dir = kv.get("replays").cloned().unwrap_or_else(|| format!("/verif/replays/{}", prop));
     let threads: usize = kv.get("threads").and_then(|s| s.parse().ok()).unwrap_or(8);
-    let _ = std::fs::remove_dir_all(&replay_dir);
+    // stale replays are removed by tools/check before the engines of a run start
     std::fs::create_dir_all(&replay_dir).ok();
     let t0 = std::time::Instant::now();
     let mut rng = Rng::new(seed ^ 0x3a1);
